@@ -77,6 +77,7 @@ func (o Op) String() string {
 type Scenario struct {
 	Name     string
 	RootName string
+	Bodyless []string      // names associated with the set by New, without a body, before Init is parsed
 	Init     string        // text parsed into the root before the history starts
 	Texts    []string      // texts for Parse ops
 	Data     []interface{} // data values for Exec ops
@@ -112,6 +113,9 @@ func newWorld(sc *Scenario) (*world, error) {
 		"has":     func(name string) bool { return root.Lookup(name) != nil },
 		"count":   func() int { return len(root.Templates()) + len(root.DefinedTemplates()) },
 	})
+	for _, name := range sc.Bodyless {
+		root.New(name)
+	}
 	if sc.Init != "" {
 		if _, err := root.ParseFromTrustedTemplate(tuc.TrustedTemplateFromStringKnownToSatisfyTypeContract(sc.Init)); err != nil {
 			return nil, err
